@@ -212,6 +212,7 @@ pub const G_C09: u32 = 2; // complete vs streaming
 pub const G_C13: u32 = 4; // streaming terminates
 pub const G_C06: u32 = 8; // resources
 pub const G_C03: u32 = 16; // completeness (input is known to be a well-formed file)
+pub const G_C03W: u32 = 32; // completeness on whatever inputs of the family ARE well-formed (others are not judged)
 
 /// bound on heap bytes requested by `complete::parse` for an input of `len` bytes
 pub fn heap_bound(len: usize) -> usize {
@@ -236,6 +237,22 @@ pub fn parse_family(x: &[u8], groups: u32) -> u32 {
     // ---- streaming parser
     let s = run_stream(x);
     // ---- reference reader
+    if groups & G_C03W != 0 {
+        if let Some(b) = rf::file(x) {
+            match &cres {
+                Ok(a) => {
+                    if a != &b {
+                        fail(321);
+                    }
+                }
+                Err(_) => fail(322),
+            }
+            if s.err.is_some() || s.open_list || s.msgs != b {
+                fail(323);
+            }
+            cover(32);
+        }
+    }
     if groups & (G_C04 | G_C03) != 0 {
         let r = rf::file(x);
         if groups & G_C03 != 0 && r.is_none() {
@@ -310,6 +327,9 @@ family!(chk_parse_c09, G_C09);
 family!(chk_parse_c13, G_C13);
 family!(chk_parse_c06, G_C06);
 family!(chk_parse_c03, G_C03);
+family!(chk_parse_c03w, G_C03W);
+// C12 at the public API: same comparison with the reference reader, used on inputs that stress type-length fields
+family!(chk_parse_c12, G_C04);
 family!(chk_parse_all, G_C04 | G_C09 | G_C13 | G_C06);
 
 /// C06: the streaming parser allocates nothing (and terminates) on any bytes.
